@@ -7,25 +7,28 @@ LEVEL_TEXT = ("Coq theorems over every address string and each naming mode (non-
               "letter-case and +extension insensitivity, read interfaces compute the same name) about an executable model of "
               "pkg/policy/address.go; the model is tied to the code by a sampled correspondence check; POP3 USER is an open known "
               "finding (partial there)")
-LEVEL_NOTE = ("theorems are about the Gallina model coq/Model/Addr.v; net.ParseIP is a Section variable with the hypotheses "
-              "'insensitive to ASCII letter case' and 'accepts only hex digits, dots and colons', both sampled by the ip stream; "
-              "Go's Unicode ToLower is modelled by ASCII lower-casing (every string that reaches it is ASCII, see TRUSTED); "
+LEVEL_NOTE = ("theorems are about the Gallina models coq/Model/Addr.v and coq/Model/IpLit.v (net.ParseIP's literal grammar, "
+              "transcribed from netip.ParseAddr of the Go toolchain in use and cross-checked against the real net.ParseIP on every "
+              "literal body of every case and on a dedicated stream); the theorems carry no hypothesis about net.ParseIP any more; "
+              "Go's Unicode ToLower: theorem unicode_lower_irrelevant shows no non-ASCII string reaches it in any mode; "
               "read side: pins lists the uses of the URL variable and checks they pass through MailboxForAddress")
 TECHNIQUE = "machine-checked proof in Coq + model/code correspondence check"
 DESIGN_REF = "DESIGN.md §4 C04, §4bis C04 naming"
 RULE = ("addr: structured generator (atoms, quoted strings, quoted pairs, routes, IP literals with/without the IPv6 tag, case flips, "
         "'+'/'.' placement, 128/255/320/63 length edges, 6% byte mutations, 1% non-ASCII) plus a naive random stream; each address goes "
         "through ParseEmailAddress and, per naming mode, NewRecipient, ExtractMailbox and ExtractMailbox of the resulting name. "
-        "case / plus: pairs (letter-case variant; l@d vs l+e@d) through NewRecipient in each mode. ip: net.ParseIP assumptions. "
+        "case / plus: pairs (letter-case variant; l@d vs l+e@d) through NewRecipient in each mode. ip: the modelled literal parser against net.ParseIP "
+        "(generated IPv4/IPv6 bodies: octet ranges, leading zeros, field counts, group lengths, ellipsis positions, embedded IPv4, zones, mutations). "
         "pop3 / live: RCPT+DATA on a real SMTP session (net.Pipe), then lookup by the address through Manager.MailboxForAddress, every REST v1 and web-UI "
         "handler on the real router (list, show, source, mark-seen, delete, purge) and a real POP3 session (USER <address>). "
         "distinct = distinct input line; non-trivial = accepted by NewRecipient in at least one mode (addr, pop3, live), "
         "both variants accepted in at least one mode (case, plus), literal accepted by ParseIP (ip).")
 TRUSTED = [
-    "net.ParseIP as a function of its argument with two assumed facts (Section hypotheses of the theorems that need them): "
-    "parse_ip (lower s) = parse_ip s, and an accepted literal consists of hex digits, '.' and ':' only; both are sampled by the 'ip' stream",
-    "strings.ToLower is modelled as ASCII lower-casing: parseEmailAddress rejects bytes >= 128 in the local part "
-    "(lemma scan_ascii), ValidateDomainPart rejects them in label domains (lemma), and net.ParseIP rejects them in literals (assumption above)",
+    "Model/IpLit.v is a hand transcription of netip.ParseAddr / parseIPv4Fields / parseIPv6 (acceptance only) of the Go standard library "
+    "(go1.23); it is tied to net.ParseIP by differential testing only (ip stream: generated IPv4/IPv6 literals around every rule of the parser; "
+    "plus every bracketed-literal body occurring in any other case), not by proof",
+    "strings.ToLower is ASCII lower-casing on ASCII-only strings (the hypothesis of theorem unicode_lower_irrelevant; Go's implementation has "
+    "an explicit ASCII fast path); non-ASCII addresses incl. U+212A, U+0130, U+017F, full-width letters are in the generator",
     "the translator's reading of pkg/rest and pkg/webui: every Vars[\"name\"] expression is listed in Gen/AddrConsts.v with whether it is the "
     "argument of MailboxForAddress, and StoreManager.MailboxForAddress is recognised syntactically as `return s.AddrPolicy.ExtractMailbox(x)`",
 ]
